@@ -1,7 +1,7 @@
 (* C01 — Two endpoints built on the library interoperate, even across transport loss.
    Statements only.  Nothing else may be added to this file. *)
 From MQ Require Import Base.Prelude Alloc.Alloc Framing.Framing Framing.FramingProofs Conn.Types Conn.ConnRecord Conn.Step
-                       Corr.ConnTrace Conn.Scope Conn.Session Conn.IdsQuota Conn.Own Conn.OwnStep Conn.Run Conn.PairQos Conn.PairQos5 Conn.PairSeq Conn.PairSeq5 Conn.PairConc Conn.SessInv Conn.PairLoss.
+                       Corr.ConnTrace Conn.Scope Conn.Session Conn.IdsQuota Conn.Own Conn.OwnStep Conn.Run Conn.PairQos Conn.PairQos5 Conn.PairSeq Conn.PairSeq5 Conn.PairConc Conn.SessInv Conn.PairLoss Conn.PairLossAcc.
 
 (* what the pair property rests on, each proved for ALL states of one endpoint:
    (i) delivery in any fragmentation is the same byte stream (C09) *)
@@ -203,6 +203,24 @@ Theorem C01_pair_lossy_invariant_after_handshake : forall gs gr c1 c2,
 Proof. exact invL_init. Qed.
 Print Assumptions C01_pair_lossy_invariant_after_handshake.
 
+(* ... and QoS 2 IS EXACTLY ONCE ACROSS TRANSPORT LOSS: with the accounting invariant [accB] (a PUBREC in flight is for an
+   identifier the receiver has recorded; the QoS 2 messages published are, up to the DUP flag, those already notified
+   followed by the QoS 2 PUBLISHes in flight that the receiver has not recorded; the sender's store holds the same pending
+   ones in the same order) kept by every action, once the links have drained the QoS 2 messages notified to the receiving
+   application are exactly the QoS 2 messages published, once each, in order — whatever was lost and retransmitted *)
+Theorem C01_pair_qos2_exactly_once_across_loss : forall gs gr,
+  role_client_ok gs = true -> role_server_ok gr = true -> 2 + g_idw gs <= MQTT_PACKET_SIZE_NO_LIMIT ->
+  forall l s, invL gs gr s -> accB s -> Forall good_actL l ->
+  exists s1 s2, run_schedL gs gr s l = Some s1 /\ run_schedL gs gr s1 (drainL (measure s1)) = Some s2 /\
+                qsr s2 = [] /\ qrs s2 = [] /\
+                map undup (filter q2 (delivered s2)) = map undup (filter q2 (published s1)).
+Proof. exact qos2_exactly_once_across_loss. Qed.
+Print Assumptions C01_pair_qos2_exactly_once_across_loss.
+
+Theorem C01_pair_accounting_after_handshake : forall c1 c2, c_qos2 c2 = [] -> c_store c1 = [] -> accB (mkSys c1 c2 [] [] [] []).
+Proof. exact accB_init. Qed.
+Print Assumptions C01_pair_accounting_after_handshake.
+
 (* the tie of those statements to the step function that the correspondence runs against the code *)
 Theorem C01_send_call_is_send_publish : forall g c p q, c_version c = V311 -> v311_pub p q ->
   step g c (OSend p) = bindr (send_publish_v311 c p) (fun '(c', e) => Ok (c', e, [])).
@@ -220,14 +238,14 @@ Print Assumptions C01_recv_call_is_deliver.
 
 (* C01_partial: what is PROVED of the pair is everything above: single exchanges (both versions), any sequence of them
    (both versions), ANY schedule with several exchanges in flight on intact FIFO links with the exactly-once accounting
-   (v3.1.1, automatic responses), and the same WITH TRANSPORT LOSSES and session resumption as safety and progress.  NOT
-   proved: the delivery accounting across losses (QoS 2 exactly once, QoS 1 at least once), a loss in the middle of the
-   resumption handshake or of a frame, manual responses, several v5.0 exchanges in flight and topic aliases.  Those — with
-   arbitrary fragmentation, loss points (incl. mid-frame) and workloads from both sides — are decided on PAIRS OF REAL
-   OBJECTS by the monitor mon_c01 (harness conn_duo.rs wires a client and a server object by two byte queues): no protocol
-   error on either side, termination, exactly-once / at-least-once / at-most-once delivery with the original topic and
-   payload, quiescence (all identifiers released, stores empty, full vacancy); both objects are tied to the model by the
-   full-digest correspondence chk_duo. *)
+   (v3.1.1, automatic responses), and the same WITH TRANSPORT LOSSES and session resumption: safety, progress, and QoS 2
+   exactly once.  NOT proved: QoS 1 "at least once" as an accounting statement across losses (safety and progress cover
+   it; the example below shows the duplicate), a loss in the middle of the resumption handshake or of a frame, manual
+   responses, several v5.0 exchanges in flight and topic aliases.  Those — with arbitrary fragmentation, loss points
+   (incl. mid-frame) and workloads from both sides — are decided on PAIRS OF REAL OBJECTS by the monitor mon_c01 (harness
+   conn_duo.rs wires a client and a server object by two byte queues): no protocol error on either side, termination,
+   exactly-once / at-least-once / at-most-once delivery with the original topic and payload, quiescence (all identifiers
+   released, stores empty, full vacancy); both objects are tied to the model by the full-digest correspondence chk_duo. *)
 
 (* the premises of the pair theorems are met by two endpoints after an ordinary handshake *)
 Example C01_pair_nonvacuous :
